@@ -794,10 +794,17 @@ class MultipartReader:
             if params.get("name") == "_charset_":
                 # Longest encoding in https://encoding.spec.whatwg.org/encodings.json
                 # is 19 characters, so 32 should be more than enough for any valid encoding.
-                charset = await part.read_chunk(32)
-                if len(charset) > 31:
-                    raise RuntimeError("Invalid default charset")
+                charset = b""
+                while not part.at_eof():
+                    charset += await part.read_chunk(max(32, part._boundary_len))
+                    if len(charset) > 31:
+                        raise RuntimeError("Invalid default charset")
                 self._default_charset = charset.strip().decode()
+                # The delimiter after the charset part has to be consumed
+                # before the headers of the next part can be read.
+                await self._read_boundary()
+                if self._at_eof:
+                    return None  # type: ignore[unreachable]
                 part = await self.fetch_next_part()
         self._last_part = part
         return self._last_part
